@@ -136,6 +136,8 @@ def main(tier):
                     want_scales = numel // gs if gs is not None else out_f
                     if qw["payload_bytes"] != want_payload or qw["payload_dtype"] not in ("torch.uint8", "torch.int8", "torch.float8_e4m3fn", "torch.float8_e5m2"):
                         ck.violation(f"frozen {c['weights']} weight of shape {fshape} (group size {gs}) takes {qw['payload_bytes']} payload bytes ({qw['payload_dtype']}), expected ceil({rows}*{bits}/8)*{numel // rows} = {want_payload}", sctx)
+                    if qw.get("payload_storage_bytes", want_payload) > want_payload + 64:
+                        ck.violation(f"frozen {c['weights']} weight of shape {fshape}: the payload exposes {qw['payload_bytes']} bytes but keeps a storage of {qw['payload_storage_bytes']} bytes alive (a view into a larger buffer: nothing is compacted)", sctx)
                     if qw["scale_numel"] != want_scales or (bits < 8 and qw["zp_numel"] != want_scales):
                         ck.violation(f"frozen {c['weights']} weight of shape {fshape} (group size {gs}) has {qw['scale_numel']} scales / {qw.get('zp_numel')} zero-points, expected {want_scales}", sctx)
                     if qw["scale_dtype"] != "torch." + c["dtype"]:
